@@ -809,6 +809,16 @@ static int addRequest(KSI_AsyncClient *c, KSI_AsyncHandle *handle, void *req,
 			confHandle = handle;
 		}
 
+		/* A handle that is still in the configuration slot is replaced and will not be returned any more,
+		 * so it may not be counted any longer either. */
+		if (c->serverConf != NULL) {
+			if (c->serverConf->state == KSI_ASYNC_STATE_PUSH_CONFIG_RECEIVED ||
+					c->serverConf->state == KSI_ASYNC_STATE_RESPONSE_RECEIVED) {
+				c->received--;
+			} else {
+				c->pending--;
+			}
+		}
 		KSI_AsyncHandle_free(c->serverConf);
 		c->serverConf = confHandle;
 		confHandle = NULL;
